@@ -935,7 +935,10 @@ class HexBytes(Constant):
     def __init__(self, parent: Optional["VyperNode"] = None, **kwargs: dict):
         super().__init__(parent, **kwargs)
         if isinstance(self.value, str):
-            self.value = bytes.fromhex(self.value)
+            try:
+                self.value = bytes.fromhex(self.value)
+            except ValueError:
+                raise InvalidLiteral("Invalid hex string literal", self)
 
     def to_dict(self):
         ast_dict = super().to_dict()
